@@ -28,21 +28,21 @@ def lattice_positions(rng, dim, lengths, n, radius):
 def gen_spec(rng, family=None):
     """A legal generated scenario (legal = within what the classes document as supported)."""
     family = family or rng.choice(["soft", "soft", "soft_cells", "soft_cells_far", "hard", "hard_cells"])
-    dim = rng.choice([2, 3]) if family in ("soft", "soft_cells") else (3 if family == "soft_cells_far" else 2)
-    if rng.random() < 0.5 or family == "soft_cells_far":
+    dim = rng.choice([2, 3]) if family in ("soft", "soft_cells") else (3 if family in ("soft_cells_far", "soft_cells_veto") else 2)
+    if rng.random() < 0.5 or family in ("soft_cells_far", "soft_cells_veto"):
         L = rng.choice([1.0, 1.0, 2.5, 0.8])
         lengths = [L] * dim
     else:
         lengths = [rng.choice([1.0, 1.3, 0.9, 2.0]) for _ in range(dim)]
     p = {"dim": dim, "lengths": lengths, "beta": rng.choice([1.0, 0.5, 2.0]),
          "scheduler": rng.choice(["heap_scheduler", "list_scheduler"]),
-         "sampling_interval": rng.choice([0.0731, 0.2113, 0.37, 0.9137]), "chain_time": rng.choice([0.31, 0.7, 1.9, 0.05]),
+         "sampling_interval": rng.choice([0.0731, 0.2113, 0.37, 0.9137]), "chain_time": rng.choice([0.3137, 0.7071, 1.9319, 0.0517]),
          "end": rng.choice([13.7, 29.3, 8.11]), "first_sample_zero": rng.random() < 0.4,
          "initial_direction": rng.randrange(dim), "speed": rng.choice([1.0, 1.0, 0.5, 3.0])}
     if rng.random() < 0.25:
         p["force_cuboid"] = True
     if family.startswith("soft"):
-        p["n"] = rng.randint(2, 12) if family != "soft_cells_far" else rng.randint(2, 7)
+        p["n"] = rng.randint(2, 12) if family not in ("soft_cells_far", "soft_cells_veto") else rng.randint(2, 9)
         p["potential"] = rng.choice(["inverse_power", "inverse_power", "lennard_jones"]) if family == "soft" else "inverse_power"
         p["power"] = rng.choice([1, 2, 6, 12])
         p["prefactor"] = rng.choice([1e-3, 1e-2, 0.1, 1.0]) * (-1 if rng.random() < 0.15 and family == "soft" else 1)
@@ -62,8 +62,9 @@ def gen_spec(rng, family=None):
             lay = 1
             cps = [rng.randint(3, 6) for _ in range(dim)]
             p["cells"] = {"cells_per_side": cps, "layers": lay, "max_occupants": rng.choice([1, 1, 2, 0]),
-                          "far": family == "soft_cells_far", "points_per_side": 2}
-            if family == "soft_cells_far":
+                          "far": family in ("soft_cells_far", "soft_cells_veto"), "veto": family == "soft_cells_veto",
+                          "points_per_side": 2}
+            if family in ("soft_cells_far", "soft_cells_veto"):
                 p["cells"]["max_occupants"] = 1  # the two-leaf-unit cell-bounding handler takes exactly one target
     else:
         p["potential"] = "hard_sphere"
